@@ -29,6 +29,7 @@ type inputs struct {
 	chainmap string // a rename map that permutes the tip names (every new name is also an old name)
 	numeric  string // several trees whose tip names are the numbers 0..n-1, in shuffled order
 	statesCI string // tip states that differ only by case (A / a / B / b): ties for any case-insensitive ordering
+	big      string // one tree of 100-140 tips (many per-branch records: worker pools need them to show an order)
 	dupmap   string // a rename map whose lines share their second column (non-injective when read with --revert)
 }
 
@@ -252,6 +253,15 @@ func genInputs(c *core.Ctx, rep int) *inputs {
 		}
 		in.dupmap = dm.String()
 	}
+	{
+		ob := core.DefaultOpts()
+		ob.MinTips, ob.MaxTips = 100, 140
+		ob.Rooted = 0
+		ob.Multif = 0.1
+		ob.TipPrefix = "b"
+		nbig, _ := g.Tree(ob)
+		in.big = toNewick(nbig) + "\n"
+	}
 	in.outgroup = []string{in.tips[0], in.tips[1]}
 	in.nexus = toNexus(in.multi)
 	return in
@@ -322,7 +332,7 @@ func cliTemplates(c *core.Ctx, in *inputs) []*request {
 	add("draw-text", false, T, "draw", "text", "-i", "@in:tree@", "-w", "60")
 	// comparisons (threaded: records carry the tree id)
 	cmp := map[string]string{"tree": in.tree, "multi": in.multi}
-	nthreads := []string{"1", "3", "8"}[c.G.Intn(3)]
+	nthreads := []string{"2", "3", "8"}[c.G.Intn(3)] // the templates named in Spec.threadCommands always run with several threads
 	add("compare-trees", true, cmp, "compare", "trees", "-i", "@in:tree@", "-c", "@in:multi@", "-t", nthreads)
 	add("compare-trees-tips", true, cmp, "compare", "trees", "-i", "@in:tree@", "-c", "@in:multi@", "-l", "-t", "4")
 	add("compare-trees-weighted", true, cmp, "compare", "trees", "-i", "@in:tree@", "-c", "@in:multi@", "--weighted", "-t", "4")
@@ -330,9 +340,23 @@ func cliTemplates(c *core.Ctx, in *inputs) []*request {
 	add("compare-edges", false, cmp, "compare", "edges", "-i", "@in:tree@", "-c", "@in:multi@")
 	add("support-fbp", false, cmp, "compute", "support", "fbp", "-i", "@in:tree@", "-b", "@in:multi@", "-t", nthreads, "--silent", "-o", "@out:tree@")
 	add("support-tbe", false, cmp, "compute", "support", "tbe", "-i", "@in:tree@", "-b", "@in:multi@", "-t", nthreads, "--silent", "-o", "@out:tree@")
+	add("support-fbp-t1", false, cmp, "compute", "support", "fbp", "-i", "@in:tree@", "-b", "@in:multi@", "-t", "1", "--silent", "-o", "@out:tree@")
+	add("support-tbe-t1", false, cmp, "compute", "support", "tbe", "-i", "@in:tree@", "-b", "@in:multi@", "-t", "1", "--silent", "-o", "@out:tree@")
+	add("compare-trees-t1", true, cmp, "compare", "trees", "-i", "@in:tree@", "-c", "@in:multi@", "-t", "1")
 	add("consensus", false, M, "compute", "consensus", "-i", "@in:tree@", "-f", "0.5")
 	add("bipartitiontree", false, map[string]string{"tree": in.tree, "tips": strings.Join(in.tips[:4], "\n") + "\n"}, "compute", "bipartitiontree", "-i", "@in:tree@", "-f", "@in:tips@")
 	add("edgetrees", false, T, "compute", "edgetrees", "-i", "@in:tree@")
+	// the per-branch records of edgetrees carry no identifier on the standard output: whatever the number of
+	// threads they must come out in branch order, byte for byte; with -o prefix the index is in the file name
+	B := map[string]string{"tree": in.big}
+	for _, th := range []string{"1", "2", "8"} {
+		add("edgetrees-stdout-t"+th, false, B, "compute", "edgetrees", "-i", "@in:tree@", "-t", th)
+	}
+	add("edgetrees-text-t2", false, B, "compute", "edgetrees", "-i", "@in:tree@", "--text-format", "-t", "2")
+	add("edgetrees-text-t8", false, B, "compute", "edgetrees", "-i", "@in:tree@", "--text-format", "-t", "8")
+	add("edgetrees-prefix-t8", false, B, "compute", "edgetrees", "-i", "@in:tree@", "-o", "@out:et@", "-t", "8")
+	add("edgetrees-prefix-text-t2", false, B, "compute", "edgetrees", "-i", "@in:tree@", "-o", "@out:et@", "--text-format", "-t", "2")
+	add("edgetrees-deepest-t8", false, B, "compute", "edgetrees", "-i", "@in:tree@", "--deepest", "-t", "8")
 	// edits
 	add("unroot", false, R, "unroot", "-i", "@in:tree@")
 	add("reroot-midpoint", false, map[string]string{"tree": in.named}, "reroot", "midpoint", "-i", "@in:tree@")
@@ -405,7 +429,9 @@ func cliTemplates(c *core.Ctx, in *inputs) []*request {
 	add("version", false, nil, "version")
 	add("support-booster", false, cmp, "compute", "support", "booster", "-i", "@in:tree@", "-b", "@in:multi@", "-t", nthreads, "--silent", "-o", "@out:tree@", "-r", "@out:raw@")
 	add("support-classical", false, cmp, "compute", "support", "classical", "-i", "@in:tree@", "-b", "@in:multi@", "-t", nthreads, "--silent", "-o", "@out:tree@")
-	add("support-tbe-moved", false, cmp, "compute", "support", "tbe", "-i", "@in:tree@", "-b", "@in:multi@", "-t", "1", "--silent", "-o", "@out:tree@", "--moved-taxa", "--per-branches", "--dist-cutoff", "0.9")
+	add("support-tbe-moved", false, cmp, "compute", "support", "tbe", "-i", "@in:tree@", "-b", "@in:multi@", "-t", "1", "--silent", "-o", "@out:tree@", "--moved-taxa", "--per-branches", "--dist-cutoff", "0.9", "-l", "@out:log@")
+	add("support-tbe-moved-t4", false, cmp, "compute", "support", "tbe", "-i", "@in:tree@", "-b", "@in:multi@", "-t", "4", "--silent", "-o", "@out:tree@", "--moved-taxa", "--per-branches", "--dist-cutoff", "0.9", "-l", "@out:log@")
+	add("support-fbp-log", false, cmp, "compute", "support", "fbp", "-i", "@in:tree@", "-b", "@in:multi@", "-t", "2", "--silent", "-o", "@out:tree@", "-l", "@out:log@")
 	add("roccurve", false, map[string]string{"tree": in.multi, "true": in.tree}, "compute", "roccurve", "-i", "@in:tree@", "-r", "@in:true@", "-t", nthreads, "-s", "0.25")
 	// generators
 	add("gen-yule", false, nil, "generate", "yuletree", "-l", "12", "-n", "3")
